@@ -177,12 +177,17 @@ def replay_behaviour(w, hist, v, origin):
     """step one specification behaviour through the real package, comparing after every event"""
     np = w.np
     w.xfab.CHECKS.activated = True      # the model's initial state
+    reuse = {}                          # within one behaviour the same (function, class) gets the byte-identical input:
+                                        # a cached / memoised check that depends on the history is then exercised
     for k, e in enumerate(hist):
         if e["ev"] == "assign":
             out, sw = w.do_assign(w.assign_value(e["v"]))
             desc = "CHECKS.activated = %r" % (w.assign_value(e["v"]),)
         else:
-            args = w.make(e["m"], e["f"], e["c"])
+            key = (e["m"] if e["f"] in ("ubi_to_u", "ubi_to_u_and_eps", "ub_to_u_b") else "", e["f"], e["c"])
+            if key not in reuse:
+                reuse[key] = w.make(e["m"], e["f"], e["c"])
+            args = reuse[key]
             valid = e["c"] in VALID
             ref = w.reference(e["m"], e["f"], args) if valid else None
             out, res, sw = w.do_call(e["m"], e["f"], e["c"], args, valid)
@@ -238,13 +243,17 @@ def record_traces(w, n, maxlen, seed):
     def drive(seq):
         w.xfab.CHECKS.activated = True
         tr = []
+        reuse = {}
         for kind, x in seq:
             if kind == "assign":
                 out, sw = w.do_assign(w.assign_value(x))
                 tr.append({"ev": "assign", "v": x, "out": out, "sw": sw})
             else:
                 m, f, c = x
-                args = w.make(m, f, c)
+                key = (m if f in ("ubi_to_u", "ubi_to_u_and_eps", "ub_to_u_b") else "", f, c)
+                if key not in reuse:
+                    reuse[key] = w.make(m, f, c)
+                args = reuse[key]
                 out, res, sw = w.do_call(m, f, c, args, c in VALID)
                 tr.append({"ev": "call", "m": m, "f": f, "c": c, "out": out, "sw": sw})
         traces.append(tr)
